@@ -1450,6 +1450,7 @@ def c18(ctx):
         whatfn=lambda e, run: "`setec put` with input class %s from %s, --verbatim=%s --trim-space=%s --empty-ok=%s: exit %s, %s request(s), %s put(s), stored bytes "
                               "are %r relative to the input; the specification (PutCli!Allowed) does not allow this. Output: %s" % (
             e["class"], e["source"], e["verbatim"], e["trim"], e["emptyok"], e["exit"], e["requests"], e["puts"], e["outcome"], e.get("output", "")[:200]))
+    cli_cov = cli_sessions(ctx, cli)
     cov = {"evaluations": rr["counters"]["values"] * 8 + rc["counters"]["runs"], "distinct_nontrivial": rr["counters"]["values"] + rc["counters"]["runs"],
            "rule": "journeys: one generated byte string (the named classes: empty, NUL, newlines, ASCII, invalid UTF-8, JSON / base64 look-alikes, all 256 byte "
                    "values, then random short strings of every length residue mod 3, medium and large random strings up to 1 MiB (thorough 4 MiB), Unicode text "
@@ -1461,10 +1462,53 @@ def c18(ctx):
                    "distinct = values + CLI runs",
            "samples": (rr.get("samples") or [])[:2] + (rc.get("samples") or [])[:3], "values": rr["counters"]["values"], "bytes_put": rr["counters"]["bytes"],
            "journeys_validated": okj, "concurrent_large_gets": conc_reads, "cli_runs": rc["counters"]["runs"], "cli_lines_validated": tot["validated"],
-           "states": tot["states"], "transitions": tot["generated"], "traces_validated_against_impl": okj + 1}
+           "states": tot["states"], "transitions": tot["generated"], "traces_validated_against_impl": okj + 1,
+           "beyond_the_property": cli_cov}
     return "exploration", cov, ["universality over byte strings is by generation across the listed classes, not enumeration; the specification fixes the hops, the order "
                                 "and the one permitted exception", "WhoIs is the injected seam (every caller is granted everything); the interactive terminal path of "
                                 "`setec put` is not exercised (no terminal)"]
+
+
+class NoteCtx:
+    """Wraps a check context for parts of the specification that no listed property speaks about: what would be a
+    violation is recorded as a note in the evidence (and on stderr), never as a verdict."""
+    def __init__(self, ctx, label):
+        self._ctx, self._label, self.count = ctx, label, 0
+
+    def __getattr__(self, k):
+        return getattr(self._ctx, k)
+
+    def violation(self, key, what, replay=None):
+        self.count += 1
+        if self.count <= 5:
+            self._ctx.note("SPEC-NOTE (%s; no listed property covers this, not a verdict): %s -- %s" % (self._label, key, what[:700]))
+
+
+def cli_sessions(ctx, cli):
+    """The whole command-line client as sessions validated against Cli.tla (list, info, get variants, put, activate, the
+    two-step confirmation of both deletes). Only `put` is the subject of a listed property (C18, decided by PutCli); the
+    rest extends the specification's coverage of the system, so a difference here is a note, not a violation."""
+    th = ctx.thorough
+    mc = ctx.tlc("CliMC", "CliMC.cfg", workers=8, timeout=1500, name="climc")
+    ctx.tlc_must_pass(mc, "Cli: ConfirmedDeletes, UnconfirmedChangesNothing, RefusedSendsNothing, GetPrintsServed, TokenWorks")
+    results, wd, _ = ctx.godrive("e2e", "^TestCliSession$", env={"VERIF_SETEC_BIN": cli, "VERIF_TRACES": 40 if th else 8, "VERIF_EVENTS": 70},
+                                 name="clisession", timeout=3000)
+    r = results.get("e2e-cli")
+    if r is None:
+        ctx.note("SPEC-NOTE: the CLI session driver did not report (not a verdict)")
+        return {"cli_sessions": 0}
+    nctx = NoteCtx(ctx, "setec CLI vs Cli.tla")
+    for v in (r.get("violations") or []):
+        nctx.violation(v["key"], v["what"], v.get("replay"))
+    st = validate_histories(nctx, "CliTrace", "CliTrace.cfg", os.path.join(wd, "trace.ndjson"), 4,
+                            extra_files={"dict.ndjson": open(os.path.join(wd, "dict.ndjson"), "rb").read()}, what="CLI session",
+                            describe=lambda e: "setec %s %s ver=%s tok=%s -> exit %s, %s request(s)" % (e.get("cmd"), e.get("name"), e.get("ver"), e.get("tok"), e.get("exit"), e.get("reqs")))
+    return {"cli_model_states": mc.distinct, "cli_model_transitions": mc.generated, "cli_sessions": st["histories"], "cli_sessions_accepted": st["accepted"],
+            "cli_commands_validated": st["events"], "cli_differences_noted": nctx.count, "cli_samples": (r.get("samples") or [])[:3],
+            "what": "spec/Cli.tla: every command of the setec binary as an action over Vault; TLC checks on CliMC that a delete reaches the service "
+                    "only under a token printed for that very request in the current window, that refused commands send nothing, that get writes "
+                    "exactly the served bytes and that an unchanged conditional get is a failure with empty output; recorded sessions of the real "
+                    "binary against a real server are validated line by line (exit status, requests sent, parsed output, server state)"}
 
 
 def apalache_inductive(ctx, module, init, indinit, inv, action_invs=(), cinit=None):
